@@ -32,6 +32,22 @@ func VerifyInput(tx *wire.MsgTx, idx int, prev *wire.TxOut) error {
 	return vm.Execute()
 }
 
+// VerifyInputFetcher is VerifyInput for multi-input transactions: fetcher
+// must know every previous output (taproot sighashes commit to all of them).
+func VerifyInputFetcher(tx *wire.MsgTx, idx int, prev *wire.TxOut,
+	fetcher txscript.PrevOutputFetcher) error {
+
+	hashes := txscript.NewTxSigHashes(tx, fetcher)
+	vm, err := txscript.NewEngine(
+		prev.PkScript, tx, idx, txscript.StandardVerifyFlags, nil,
+		hashes, prev.Value, fetcher,
+	)
+	if err != nil {
+		return err
+	}
+	return vm.Execute()
+}
+
 // sweepAround builds a one-input sweep transaction around inp the way the
 // sweeper does (sequence = blocks to maturity, lock time = required lock
 // time), lets the input craft its witness and runs the interpreter against
@@ -693,4 +709,59 @@ func (s *Sim) CheckRemoteClose(x int, pending bool) (CloseStats, error) {
 		cs.Anchors++
 	}
 	return cs, nil
+}
+
+// SecondLevelTxs force closes side y (loaded afresh, the live channel is
+// untouched) and returns its signed commitment together with the fully
+// signed second-level HTLC transactions keyed by the commitment output they
+// spend (success transactions carry the preimage). Used to let a "cheater"
+// advance HTLCs of a commitment it later revokes.
+func (s *Sim) SecondLevelTxs(y int) (*wire.MsgTx, map[uint32]*wire.MsgTx, error) {
+	ch, err := s.Sides[y].LoadFresh()
+	if err != nil {
+		return nil, nil, err
+	}
+	if ch.State().LocalCommitment.CommitHeight == 0 {
+		return nil, nil, nil
+	}
+	sum, err := ch.ForceClose()
+	if err != nil {
+		return nil, nil, err
+	}
+	out := map[uint32]*wire.MsgTx{}
+	res, err := sum.ContractResolutions.UnwrapOrErr(fmt.Errorf("no resolutions"))
+	if err != nil || res.HtlcResolutions == nil {
+		return sum.CloseTx, out, nil
+	}
+	for i := range res.HtlcResolutions.OutgoingHTLCs {
+		tx := res.HtlcResolutions.OutgoingHTLCs[i].SignedTimeoutTx
+		if tx != nil {
+			out[tx.TxIn[0].PreviousOutPoint.Index] = tx
+		}
+	}
+	slot := 3
+	if s.P.ChanType.IsTaproot() {
+		slot = 2
+	}
+	for i := range res.HtlcResolutions.IncomingHTLCs {
+		r := &res.HtlcResolutions.IncomingHTLCs[i]
+		if r.SignedSuccessTx == nil {
+			continue
+		}
+		tx := r.SignedSuccessTx.Copy()
+		idx := tx.TxIn[0].PreviousOutPoint.Index
+		prev := sum.CloseTx.TxOut[idx]
+		for z := 0; z < 2; z++ {
+			for _, u := range s.M.U[z] {
+				if u.Kind != UAdd || int64(uint64(u.H.Amt)/1000) != prev.Value {
+					continue
+				}
+				tx.TxIn[0].Witness[slot] = u.H.Preimage[:]
+				if VerifyInput(tx, 0, prev) == nil {
+					out[idx] = tx.Copy()
+				}
+			}
+		}
+	}
+	return sum.CloseTx, out, nil
 }
